@@ -12,7 +12,7 @@ type Problem struct {
 }
 
 // WellFormed checks the invariants of property C05 on a returned result.
-// peersComplete=false (focus-workload runs return only the relevant peers) skips the cover check.
+// peersComplete=false skips the cover / membership checks (callers that filter the peers themselves); list results - focused ones included - are complete.
 func WellFormed(res *ListResult, peersComplete bool) []Problem {
 	ps := []Problem{}
 	add := func(k, d string) { ps = append(ps, Problem{k, d}) }
